@@ -135,7 +135,7 @@ class SafeLearner(Learner):
         if no_len(std_pred) or isinstance(std_pred,str):
             #action
             std_pred = [std_pred]
-        elif len(std_pred) > 2:
+        elif len(std_pred) != 2:
             #pmf or action
             std_pred = [std_pred]
         elif len(std_pred) == 2:
